@@ -47,7 +47,7 @@ def number_scope(prog, roles, em):
             ids.add(bid)
     for bid in em.reach:
         b = prog.by_id[bid]
-        if any(l['ty'].startswith('parser::Literal<') for l in b.locals[:b.arg_count + 1]):
+        if any('parser::Literal<' in l['ty'] for l in b.locals[:b.arg_count + 1]):
             ids.add(bid)
     for b in prog.bodies:
         if b.name == 'value::Value::decimal':
@@ -132,7 +132,7 @@ def rule_literal_path(prog, roles, em):
     n3 = 0
     for bid in sorted(em.reach):
         b = prog.by_id[bid]
-        if not any(l['ty'].startswith('parser::Literal<') for l in b.locals[:b.arg_count + 1]):
+        if not any('parser::Literal<' in l['ty'] for l in b.locals[:b.arg_count + 1]):
             continue
         for c in b.live_calls:
             if c.callee in ('std::convert::From::from', 'std::convert::Into::into') and c.fn and DEC in ' '.join(c.fn['args']) and 'value::Value' in ' '.join(c.fn['args']):
